@@ -66,6 +66,27 @@ Theorem C08_Qvec_scale_invariant : forall l sl dl x1 y1 z1 s1 x2 y2 z2 s2 k1 k2 
                    (vx Q) (vy Q) (vz Q) (1 / sl) d_invm.
 Proof using. exact (Qvec_scale_invariant h mn). Qed.
 
+(* beams with or without a length unit (beam_dims false = a dimensionless direction vector of ANY norm), independently for
+   the two beams: Q_vec is (2 pi/lambda)(e_i - e_f) of the directions of the stored numbers ... *)
+Theorem C08_Qvec_formula_any_beam_units : forall (u1 u2 : bool) l sl dl x1 y1 z1 s1 x2 y2 z2 s2,
+  l > 0 -> sl > 0 -> s1 > 0 -> s2 > 0 -> is_num dl = true -> mkV x1 y1 z1 <> v0 -> mkV x2 y2 z2 <> v0 ->
+  let Q := vsc (2 * PI / (l * sl)) (vminus (dir (mkV x1 y1 z1)) (dir (mkV x2 y2 z2))) in
+  is_vec h mn (Qvec_of h mn (tvar h mn l sl d_m dl) (tv x1 y1 z1 s1 (beam_dims u1)) (tv x2 y2 z2 s2 (beam_dims u2)))
+         (vx Q) (vy Q) (vz Q) (1 / sl) d_invm.
+Proof using. exact (Qvec_formula_any_beam_units h mn). Qed.
+
+(* ... and does not change when the beams are rescaled and / or handed over in another unit or without one *)
+Theorem C08_Qvec_scale_invariant_any_beam_units : forall (u1 u2 u1' u2' : bool) l sl dl x1 y1 z1 s1 x2 y2 z2 s2 k1 k2 s1' s2',
+  l > 0 -> sl > 0 -> s1 > 0 -> s2 > 0 -> s1' > 0 -> s2' > 0 -> k1 > 0 -> k2 > 0 -> is_num dl = true ->
+  mkV x1 y1 z1 <> v0 -> mkV x2 y2 z2 <> v0 ->
+  exists Q,
+    is_vec h mn (Qvec_of h mn (tvar h mn l sl d_m dl) (tv x1 y1 z1 s1 (beam_dims u1)) (tv x2 y2 z2 s2 (beam_dims u2)))
+           (vx Q) (vy Q) (vz Q) (1 / sl) d_invm
+    /\ is_vec h mn (Qvec_of h mn (tvar h mn l sl d_m dl) (tv (k1 * x1) (k1 * y1) (k1 * z1) s1' (beam_dims u1'))
+                                                          (tv (k2 * x2) (k2 * y2) (k2 * z2) s2' (beam_dims u2')))
+              (vx Q) (vy Q) (vz Q) (1 / sl) d_invm.
+Proof using. exact (Qvec_scale_invariant_any_beam_units h mn). Qed.
+
 Theorem C08_Qvec_rotates : forall M l sl dl bi bf s1 s2,
   orthogonal M -> l > 0 -> sl > 0 -> s1 > 0 -> s2 > 0 -> is_num dl = true -> bi <> v0 -> bf <> v0 ->
   let Q := Qspec (l * sl) (vsc s1 bi) (vsc s2 bf) in
@@ -182,6 +203,17 @@ Proof.
     unfold Rdiv at 1; rewrite Rmult_0_l, acos_0. pose proof PI_RGT_0; lra.
 Qed.
 
+(* hypotheses of the two theorems on unit-less beams satisfiable: direction vectors (1,1,0) and (0,0,5) without a unit
+   (norms sqrt 2 and 5, not 1), rescaled by 3 and 1/10 *)
+Example C08_unitless_beams_nonvacuous :
+  18 / 10 > 0 /\ 1 / 10000000000 > 0 /\ mkV 1 1 0 <> v0 /\ mkV 0 0 5 <> v0 /\ 3 > 0 /\ 1 / 10 > 0
+  /\ beam_dims false = dzero /\ norm (mkV 1 1 0) <> 1.
+Proof.
+  repeat split; try lra; try (intros E; injection E; lra).
+  unfold norm, dot; simpl. intros E. assert (E2 : sqrt (1 * 1 + 1 * 1 + 0 * 0) * sqrt (1 * 1 + 1 * 1 + 0 * 0) = 1) by (rewrite E; ring).
+  rewrite sqrt_sqrt in E2 by lra. lra.
+Qed.
+
 (* a left-handed B: the same cell with b*, c* interchanged, det = -1/120; R U B is non-singular, P is a mirror *)
 Example C08_left_handed_nonvacuous :
   mirror Pswap23 /\ mdet Pswap23 <> 0
@@ -194,6 +226,8 @@ Print Assumptions C08_Qvec_formula.
 Print Assumptions C08_Qvec_norm.
 Print Assumptions C08_Qvec_norm_is_Q.
 Print Assumptions C08_Qvec_scale_invariant.
+Print Assumptions C08_Qvec_formula_any_beam_units.
+Print Assumptions C08_Qvec_scale_invariant_any_beam_units.
 Print Assumptions C08_Qvec_rotates.
 Print Assumptions C08_hkl_inverse.
 Print Assumptions C08_hkl_inverse_any_units.
